@@ -1,4 +1,5 @@
 import Irismod.Props.C19
+import Irismod.Gen.RecordMutators
 open Irismod Irismod.Record Irismod.Props.C19
 #print axioms rejected_unchanged
 #print axioms reads_unchanged
@@ -10,5 +11,6 @@ open Irismod Irismod.Record Irismod.Props.C19
 #print axioms identical_records_distinct_preimages
 #print axioms immutable_forever
 #print axioms every_returned_id_reads_back
+#print axioms Irismod.Gen.RecordMutators.one_writer_no_deleter
 -- non-vacuity: one tx with two byte-identical messages + the same tx bytes again: three creations, three distinct ids, all read back
 #eval s!"nonvacuous {demoNonvacuous}"
